@@ -192,6 +192,7 @@ class Obligations:
         s.solver_time = 0.0; s.paths = 0; s.steps = 0; s.panic_paths = 0; s.cross = []; s.smt2 = []
         s.timeout_ms = 30000 if tier == 'quick' else 300000
         s.functions = set(); s.models = set(); s.stubs = set(); s.feas_unknown = 0; s.vacuity = {}
+        s.validation = []; s.vseed = int(os.environ.get('VERIF_SEED', '0') or 0)
 
     def absorb_engine(s, E):
         s.functions |= E.used_fns; s.models |= E.used_models; s.stubs |= E.used_stubs
@@ -210,7 +211,21 @@ class Obligations:
             s.smt2.append((name, smt2_of(pc, [neg]), 'unsat' if r == z3.unsat else 'sat' if r == z3.sat else 'unknown'))
         if len(s.samples) < 3 and r == z3.unsat:
             s.samples.append({'obligation': name, 'path_condition': [str(z3.simplify(c))[:200] for c in pc[:6]], 'goal': (sample or str(goal))[:300], 'verdict': 'unsat (holds)'})
-        if r == z3.unsat: s.discharged += 1; return True
+        if r == z3.unsat:
+            s.discharged += 1
+            # translator validation sample: a concrete input of this path, replayed natively against the oracle's prediction
+            import zlib
+            if replay is not None and len(s.validation) < 6 and (zlib.crc32(f'{name}|{s.vseed}'.encode()) % 100) < 12:
+                try:
+                    r3, m3 = z3.unknown, None
+                    for pref in list(prefer) + [[]]:
+                        r3, m3, dt3 = solve_once(pc, list(pref), 1500); s.solver_time += dt3
+                        if r3 == z3.sat: break
+                    if r3 == z3.sat:
+                        sp = replay(m3)
+                        if sp and sp.get('program') and not sp.get('timing') and not sp.get('slow'): s.validation.append({'obligation': name, 'replay': sp})
+                except Exception: pass
+            return True
         if r == z3.unknown:
             s.inconclusive.append({'obligation': name, 'reason': 'solver unknown/timeout'}); return None
         spec = None
@@ -235,11 +250,12 @@ class Obligations:
         d = dict(s.__dict__); d['functions'] = sorted(s.functions); d['models'] = sorted(s.models); d['stubs'] = sorted(s.stubs); return d
 
 def merge(obs):
-    out = {'n': 0, 'discharged': 0, 'viol': [], 'inconclusive': [], 'samples': [], 'solver_time': 0.0, 'paths': 0, 'steps': 0, 'panic_paths': 0,
+    out = {'n': 0, 'discharged': 0, 'viol': [], 'inconclusive': [], 'samples': [], 'validation': [], 'solver_time': 0.0, 'paths': 0, 'steps': 0, 'panic_paths': 0,
            'functions': set(), 'models': set(), 'stubs': set(), 'feas_unknown': 0, 'vacuity': {}, 'smt2': [], 'extra': []}
     for o in obs:
         for k in ('n', 'discharged', 'solver_time', 'paths', 'steps', 'panic_paths', 'feas_unknown'): out[k] += o[k]
         for k in ('viol', 'inconclusive', 'smt2'): out[k] += o[k]
+        out['validation'] += o.get('validation', [])
         out['samples'] += o['samples']
         for k in ('functions', 'models', 'stubs'): out[k] |= set(o[k])
         for k, v in o['vacuity'].items(): out['vacuity'][k] = out['vacuity'].get(k, 0) + v
@@ -316,6 +332,10 @@ def fmt_big(n):
 def fmt_frac(q):
     q = Fraction(q)
     return f'({fmt_int(q.numerator)}/{q.denominator})'
+def repr_q(q):
+    """what nlrun prints (repr) for a rational: `n/dq`, or `nq` when the denominator is 1"""
+    q = Fraction(q)
+    return f'{q.numerator}q' if q.denominator == 1 else f'{q.numerator}/{q.denominator}q'
 def show_frac(q):
     """repr that noulith prints for a rational / int"""
     q = Fraction(q)
@@ -385,6 +405,30 @@ def finish(prop, tier, seed, merged, t0, level='model_checking', bounds=None, ou
         v['native'] = {'dev': '(not replayed: further counterexample of a class whose shortest programs were replayed)', 'release': ''}
         (confirmed if v['class'] in conf_classes else nonrepro).append(v)
     unreplayable =[v for v in viol if not (v.get('replay') and v['replay'].get('program'))]
+    # ---- translator validation: concrete inputs of discharged obligations, run natively; the native result must be what the
+    #      oracle (which the symbolic result was proved equal to) predicts — a disagreement means the encoding or a model is wrong
+    def _bad(exp, o):
+        if exp is None: return o.startswith(('PANIC', 'HANG', 'CRASH'))
+        if isinstance(exp, dict):
+            if 'equals' in exp: return o != exp['equals']
+            if 'not_panic' in exp: return o.startswith(('PANIC', 'HANG', 'CRASH'))
+            if 'one_of' in exp: return o not in exp['one_of']
+            if 'suffix' in exp: return not o.endswith(exp['suffix'])
+            if 'prefix' in exp: return not o.startswith(exp['prefix'])
+            return False
+        return o != exp
+    vals = {}
+    for v in merged.get('validation', []): vals.setdefault(v['replay']['program'], v)
+    vlist = [vals[k] for k in sorted(vals)][:80]
+    vfail = list(validation_failures or [])
+    if vlist:
+        vprogs = [v['replay']['program'] for v in vlist]
+        vd = nlrun(vprogs, 'dev', timeout_ms=8000); vr = nlrun(vprogs, 'release', timeout_ms=8000)
+        for v, d, r in zip(vlist, vd, vr):
+            if _bad(v['replay'].get('expect'), d) or _bad(v['replay'].get('expect'), r):
+                vfail.append(f'translator validation mismatch on {v["obligation"]}: {v["replay"]["program"]} -> dev {d[:160]} | release {r[:160]} (oracle expects {v["replay"].get("expect")})')
+            else: validated += 1
+    validation_failures = vfail
     # ---- classification
     new, matched = [], {}
     for v in confirmed:
